@@ -86,56 +86,92 @@ def Div32Ok {n : Nat} (x : RU n × RU n × RU n) (a2 a1 a0 b1 b0 : RU n) : Prop 
 def Div21Ok {n : Nat} (x : RU n × RU n) (ah al b : RU n) : Prop :=
   WF x.1 ∧ WF x.2 ∧ val ah * Bn n + val al = val x.1 * val b + val x.2 ∧ val x.2 < val b
 
-set_option maxHeartbeats 1600000 in
-theorem div_3_2_step (t m : Nat)
+/-! ### the generic `div_3_2` template, split into the quotient estimate and the remainder/correction part -/
+/-- the quotient estimate `(q, c, ret1)`: `div_2_1(a2, a1, b1)` when `a2 < b1`, otherwise `B-1` with `c = a1 + b1` and its carry -/
+def qhatR {m : Nat} (t : Nat) (a2 a1 b1 : RU (m+1)) : RU (m+1) × RU (m+1) × Bool :=
+  if cmp a2 b1 < 0 then ((div_2_1 t a2 a1 b1).1, (div_2_1 t a2 a1 b1).2, false) else (ones (m + 1), (add a1 b1).1, (add a1 b1).2)
+
+/-- the rest of the template: `d = q·b0`, `r = (c|a0) - d`, up to two corrections -/
+def div32tailR {k : Nat} (t : Nat) (q c : RU k) (ret1 : Bool) (a0 b1 b0 : RU k) : RU k × RU k × RU k :=
+  if !ret1 && (decide (cmp (hi (lmul t q b0)) c > 0) || (decide (cmp (hi (lmul t q b0)) c = 0) && decide (cmp (lo (lmul t q b0)) a0 > 0))) then
+    if !(add_wc (sub_wcNC c (hi (lmul t q b0)) (sub a0 (lo (lmul t q b0))).2) b1 (add (sub a0 (lo (lmul t q b0))).1 b0).2).2 then
+      ((sub_1 (sub_1 q).1).1,
+       add_wcNC (add_wc (sub_wcNC c (hi (lmul t q b0)) (sub a0 (lo (lmul t q b0))).2) b1 (add (sub a0 (lo (lmul t q b0))).1 b0).2).1 b1
+         (add (add (sub a0 (lo (lmul t q b0))).1 b0).1 b0).2,
+       (add (add (sub a0 (lo (lmul t q b0))).1 b0).1 b0).1)
+    else ((sub_1 q).1, (add_wc (sub_wcNC c (hi (lmul t q b0)) (sub a0 (lo (lmul t q b0))).2) b1 (add (sub a0 (lo (lmul t q b0))).1 b0).2).1,
+          (add (sub a0 (lo (lmul t q b0))).1 b0).1)
+  else (q, sub_wcNC c (hi (lmul t q b0)) (sub a0 (lo (lmul t q b0))).2, (sub a0 (lo (lmul t q b0))).1)
+
+theorem div_3_2_succ_eq {m : Nat} (t : Nat) (a2 a1 a0 b1 b0 : RU (m+1)) :
+    div_3_2 t a2 a1 a0 b1 b0 = div32tailR t (qhatR t a2 a1 b1).1 (qhatR t a2 a1 b1).2.1 (qhatR t a2 a1 b1).2.2 a0 b1 b0 := by
+  simp only [div_3_2, div32tailR, qhatR]
+  rfl
+
+theorem qhatR_ok (t m : Nat)
     (IH21 : ∀ ah al b : RU (m+1), WF ah → WF al → WF b → Bn (m+1) ≤ 2 * val b → val ah < val b → Div21Ok (div_2_1 t ah al b) ah al b)
-    (a2 a1 a0 b1 b0 : RU (m+1)) (ha2 : WF a2) (ha1 : WF a1) (ha0 : WF a0) (hb1 : WF b1) (hb0 : WF b0)
+    (a2 a1 b1 b0 : RU (m+1)) (ha2 : WF a2) (ha1 : WF a1) (hb1 : WF b1) (hb0 : WF b0)
     (hn : Bn (m+1) ≤ 2 * val b1) (hlt : val a2 * Bn (m+1) + val a1 < val b1 * Bn (m+1) + val b0) :
-    Div32Ok (div_3_2 t a2 a1 a0 b1 b0) a2 a1 a0 b1 b0 := by
-  have hva2 := val_lt _ ha2
-  have hva1 := val_lt _ ha1
+    WF (qhatR t a2 a1 b1).1 ∧ WF (qhatR t a2 a1 b1).2.1 ∧
+    (val a2 * Bn (m+1) + val a1 = val (qhatR t a2 a1 b1).1 * val b1 + val (qhatR t a2 a1 b1).2.1 + c2n (qhatR t a2 a1 b1).2.2 * Bn (m+1)) ∧
+    (((qhatR t a2 a1 b1).2.2 = false ∧ val (qhatR t a2 a1 b1).2.1 < val b1) ∨
+     (val (qhatR t a2 a1 b1).1 + 1 = Bn (m+1) ∧ val a1 < val b0 ∧
+       val (qhatR t a2 a1 b1).2.1 + c2n (qhatR t a2 a1 b1).2.2 * Bn (m+1) = val a1 + val b1)) := by
+  have hvb0 := val_lt _ hb0
+  unfold qhatR
+  by_cases hc : cmp a2 b1 < 0
+  · rw [if_pos hc]
+    have hlt' := (cmp_lt a2 b1 ha2 hb1).mp hc
+    obtain ⟨h1, h2, h3, h4⟩ := IH21 a2 a1 b1 ha2 ha1 hb1 hn hlt'
+    exact ⟨h1, h2, by simpa using h3, Or.inl ⟨rfl, h4⟩⟩
+  · rw [if_neg hc]
+    have hge : ¬ val a2 < val b1 := fun h => hc ((cmp_lt a2 b1 ha2 hb1).mpr h)
+    have heq : val a2 = val b1 := by
+      by_contra hne
+      have : val b1 + 1 ≤ val a2 := by omega
+      have := Nat.mul_le_mul_right (Bn (m+1)) this
+      nlinarith
+    have ho := ones_ok (m+1)
+    obtain ⟨hsw, hse⟩ := add_ok a1 b1 ha1 hb1
+    have ha1b0 : val a1 < val b0 := by rw [heq] at hlt; omega
+    refine ⟨ho.1, hsw, ?_, Or.inr ⟨ho.2, ha1b0, hse⟩⟩
+    simp only
+    rw [heq]
+    have := ho.2
+    generalize Bn (m+1) = B at *
+    generalize val (ones (m+1)) = o at *
+    subst this
+    linear_combination hse.symm
+
+/-- everything the branches need to know about `d = q·b0` and the first remainder -/
+structure D32R {k : Nat} (q c a0 b1 b0 : RU k) (ret1 : Bool) (d : RU (k+1)) (s0 : RU k × Bool) (r1 : RU k) : Prop where
+  hd0 : WF (lo d)
+  hd1 : WF (hi d)
+  hde : val (lo d) + Bn k * val (hi d) = val q * val b0
+  hs0 : WF s0.1
+  hr1 : WF r1
+  hlex : (decide (cmp (hi d) c > 0) || (decide (cmp (hi d) c = 0) && decide (cmp (lo d) a0 > 0))) = true ↔
+      val a0 + Bn k * val c < val (lo d) + Bn k * val (hi d)
+  core : (¬(ret1 = false ∧ val a0 + Bn k * val c < val (lo d) + Bn k * val (hi d)) →
+      (val s0.1 + Bn k * val r1) + (val (lo d) + Bn k * val (hi d)) = (val a0 + Bn k * val c) + c2n ret1 * (Bn k * Bn k) ∧
+      val s0.1 + Bn k * val r1 < val b0 + Bn k * val b1) ∧
+    (ret1 = false ∧ val a0 + Bn k * val c < val (lo d) + Bn k * val (hi d) → ∀ (x : Nat) (ρ : Bool), x < Bn k * Bn k →
+      x + c2n ρ * (Bn k * Bn k) = (val s0.1 + Bn k * val r1) + (val b0 + Bn k * val b1) →
+        (ρ = true → x + (val (lo d) + Bn k * val (hi d)) = (val a0 + Bn k * val c) + (val b0 + Bn k * val b1) ∧ x < val b0 + Bn k * val b1) ∧
+        (ρ = false → (val a0 + Bn k * val c) + (val b0 + Bn k * val b1) < val (lo d) + Bn k * val (hi d) ∧
+          ∀ (y : Nat) (ρ' : Bool), y < Bn k * Bn k → y + c2n ρ' * (Bn k * Bn k) = x + (val b0 + Bn k * val b1) →
+            y + (val (lo d) + Bn k * val (hi d)) = (val a0 + Bn k * val c) + 2 * (val b0 + Bn k * val b1) ∧ y < val b0 + Bn k * val b1))
+  hq0 : val q = 0 → val (lo d) + Bn k * val (hi d) = 0
+  hq1 : val q ≤ 1 → val (lo d) + Bn k * val (hi d) ≤ val b0 + Bn k * val b1
+
+theorem d32R_facts {k : Nat} (t : Nat) (q c a0 b1 b0 : RU k) (ret1 : Bool) (a1 : Nat)
+    (hq : WF q) (hc : WF c) (ha0 : WF a0) (hb1 : WF b1) (hb0 : WF b0) (hn : Bn k ≤ 2 * val b1)
+    (hcase : (ret1 = false ∧ val c < val b1) ∨ (val q + 1 = Bn k ∧ a1 < val b0 ∧ val c + c2n ret1 * Bn k = a1 + val b1)) :
+    D32R q c a0 b1 b0 ret1 (lmul t q b0) (sub a0 (lo (lmul t q b0))) (sub_wcNC c (hi (lmul t q b0)) (sub a0 (lo (lmul t q b0))).2) := by
   have hva0 := val_lt _ ha0
   have hvb1 := val_lt _ hb1
   have hvb0 := val_lt _ hb0
-  have hB := Bn_pos (m+1)
-  simp only [div_3_2]
-  -- phase A: the quotient estimate (q, c, ret1)
-  have key : ∀ qc : RU (m+1) × RU (m+1) × Bool,
-      qc = (if cmp a2 b1 < 0 then ((div_2_1 t a2 a1 b1).1, (div_2_1 t a2 a1 b1).2, false) else (ones (m + 1), (add a1 b1).1, (add a1 b1).2)) →
-      WF qc.1 ∧ WF qc.2.1 ∧ (val a2 * Bn (m+1) + val a1 = val qc.1 * val b1 + val qc.2.1 + c2n qc.2.2 * Bn (m+1)) ∧
-      ((qc.2.2 = false ∧ val qc.2.1 < val b1) ∨
-       (val qc.1 + 1 = Bn (m+1) ∧ val a1 < val b0 ∧ val qc.2.1 + c2n qc.2.2 * Bn (m+1) = val a1 + val b1)) := by
-    intro qc hqc
-    by_cases hc : cmp a2 b1 < 0
-    · rw [if_pos hc] at hqc; subst hqc
-      have hlt' := (cmp_lt a2 b1 ha2 hb1).mp hc
-      obtain ⟨h1, h2, h3, h4⟩ := IH21 a2 a1 b1 ha2 ha1 hb1 hn hlt'
-      exact ⟨h1, h2, by simpa using h3, Or.inl ⟨rfl, h4⟩⟩
-    · rw [if_neg hc] at hqc; subst hqc
-      have hge : ¬ val a2 < val b1 := fun h => hc ((cmp_lt a2 b1 ha2 hb1).mpr h)
-      have heq : val a2 = val b1 := by
-        by_contra hne
-        have : val b1 + 1 ≤ val a2 := by omega
-        have := Nat.mul_le_mul_right (Bn (m+1)) this
-        nlinarith
-      have ho := ones_ok (m+1)
-      obtain ⟨hsw, hse⟩ := add_ok a1 b1 ha1 hb1
-      have ha1b0 : val a1 < val b0 := by rw [heq] at hlt; omega
-      refine ⟨ho.1, hsw, ?_, Or.inr ⟨ho.2, ha1b0, hse⟩⟩
-      simp only
-      rw [heq]
-      have := ho.2
-      generalize Bn (m+1) = B at *
-      generalize val (ones (m+1)) = o at *
-      subst this
-      linear_combination hse.symm
-  have hk := key _ rfl
-  generalize (if cmp a2 b1 < 0 then ((div_2_1 t a2 a1 b1).1, (div_2_1 t a2 a1 b1).2, false) else (ones (m + 1), (add a1 b1).1, (add a1 b1).2)) = qc at hk ⊢
-  clear key
-  obtain ⟨q, c, ret1⟩ := qc
-  simp only at hk ⊢
-  obtain ⟨hq, hc, hA, hcase⟩ := hk
-  -- phase B: d = q * b0, first remainder
+  have hB := Bn_pos k
   obtain ⟨hdw, hde⟩ := lmul_ok t q b0 hq hb0
   generalize lmul t q b0 = d at hdw hde ⊢
   have hdw' := (WF_lo_hi _).mp hdw
@@ -149,41 +185,58 @@ theorem div_3_2_step (t m : Nat)
   generalize (sub_wc c (hi d) s0.2).2 = β1 at hr1e
   obtain ⟨hr1w, -⟩ := hr1
   generalize sub_wcNC c (hi d) s0.2 = r1 at hr1w hr1e ⊢
-  have hlex := lex_gt_iff (hi d) (lo d) c a0 hdw'.2 hdw'.1 hc ha0
   have hvb := val_lt (RU.node b0 b1) ⟨hb0, hb1⟩
   have hvr := val_lt (RU.node s0.1 r1) ⟨hs0w, hr1w⟩
   have hvc := val_lt _ hc
-  have hvq := val_lt _ hq
   simp only [val_node] at hvb hvr
-  simp only [Bn_succ (m+1)] at hvb hvr hvd
-  unfold Div32Ok
-  have P1 : (val s0.1 + (Bn (m+1)) * val r1) + (val (lo d) + (Bn (m+1)) * val (hi d)) = (val a0 + (Bn (m+1)) * val c) + c2n β1 * ((Bn (m+1)) * (Bn (m+1))) := by
-    linear_combination hs0e + (Bn (m+1)) * hr1e
-  have hK2 : (Bn (m+1)) * (Bn (m+1)) ≤ 2 * (val b0 + (Bn (m+1)) * val b1) := by nlinarith
-  have hT : (val a0 + (Bn (m+1)) * val c) + c2n ret1 * ((Bn (m+1)) * (Bn (m+1))) < (val b0 + (Bn (m+1)) * val b1) + (val (lo d) + (Bn (m+1)) * val (hi d)) := by
+  simp only [Bn_succ k] at hvb hvr hvd
+  have P1 : (val s0.1 + Bn k * val r1) + (val (lo d) + Bn k * val (hi d)) = (val a0 + Bn k * val c) + c2n β1 * (Bn k * Bn k) := by
+    linear_combination hs0e + Bn k * hr1e
+  have hK2 : Bn k * Bn k ≤ 2 * (val b0 + Bn k * val b1) := by nlinarith
+  have hT : (val a0 + Bn k * val c) + c2n ret1 * (Bn k * Bn k) < (val b0 + Bn k * val b1) + (val (lo d) + Bn k * val (hi d)) := by
     rcases hcase with ⟨h1, h2⟩ | ⟨h1, h2, h3⟩
     · subst h1; simp only [c2n_false, Nat.zero_mul, Nat.add_zero]
       have : val c + 1 ≤ val b1 := h2
-      have := Nat.mul_le_mul_left (Bn (m+1)) this
+      have := Nat.mul_le_mul_left (Bn k) this
       nlinarith
     · rw [hde]
-      have e1 : val a0 + (Bn (m+1)) * val c + c2n ret1 * ((Bn (m+1)) * (Bn (m+1))) = val a0 + (Bn (m+1)) * (val a1 + val b1) := by rw [← h3]; ring
+      have e1 : val a0 + Bn k * val c + c2n ret1 * (Bn k * Bn k) = val a0 + Bn k * (a1 + val b1) := by rw [← h3]; ring
       rw [e1]
-      have : val a1 + 1 ≤ val b0 := h2
-      have h5 := Nat.mul_le_mul_left (Bn (m+1)) this
-      have e2 : val q * val b0 + val b0 = (Bn (m+1)) * val b0 := by rw [← h1]; ring
+      have : a1 + 1 ≤ val b0 := h2
+      have h5 := Nat.mul_le_mul_left (Bn k) this
+      have e2 : val q * val b0 + val b0 = Bn k * val b0 := by rw [← h1]; ring
       nlinarith
-  have hq0 : val q = 0 → val (lo d) + (Bn (m+1)) * val (hi d) = 0 := by intro h; rw [hde, h]; simp
-  have hq1 : val q ≤ 1 → val (lo d) + (Bn (m+1)) * val (hi d) ≤ val b0 + (Bn (m+1)) * val b1 := by
-    intro h; rw [hde]
-    have := Nat.mul_le_mul_right (val b0) h
-    omega
-  have core := d32_core ((Bn (m+1)) * (Bn (m+1))) (val b0 + (Bn (m+1)) * val b1) (val (lo d) + (Bn (m+1)) * val (hi d)) (val a0 + (Bn (m+1)) * val c)
-    (val s0.1 + (Bn (m+1)) * val r1) ret1 β1 hvd hvb hK2 hT hvr P1
+  exact {
+    hd0 := hdw'.1, hd1 := hdw'.2, hde := hde, hs0 := hs0w, hr1 := hr1w
+    hlex := lex_gt_iff (hi d) (lo d) c a0 hdw'.2 hdw'.1 hc ha0
+    core := d32_core (Bn k * Bn k) (val b0 + Bn k * val b1) (val (lo d) + Bn k * val (hi d)) (val a0 + Bn k * val c)
+      (val s0.1 + Bn k * val r1) ret1 β1 hvd hvb hK2 hT hvr P1
+    hq0 := by intro h; rw [hde, h]; simp
+    hq1 := by
+      intro h; rw [hde]
+      have := Nat.mul_le_mul_right (val b0) h
+      omega }
+
+theorem comm_ltR {B y1 y0 b1 b0 : Nat} (h : y0 + B * y1 < b0 + B * b1) : y1 * B + y0 < b1 * B + b0 := by
+  rw [Nat.mul_comm y1, Nat.mul_comm b1]; omega
+
+/-- the remainder / correction part is exact -/
+theorem div32tailR_ok {k : Nat} (t : Nat) (q c a0 b1 b0 a2 a1 : RU k) (ret1 : Bool)
+    (hq : WF q) (hc : WF c) (ha0 : WF a0) (hb1 : WF b1) (hb0 : WF b0) (hn : Bn k ≤ 2 * val b1)
+    (hA : val a2 * Bn k + val a1 = val q * val b1 + val c + c2n ret1 * Bn k)
+    (hcase : (ret1 = false ∧ val c < val b1) ∨ (val q + 1 = Bn k ∧ val a1 < val b0 ∧ val c + c2n ret1 * Bn k = val a1 + val b1)) :
+    Div32Ok (div32tailR t q c ret1 a0 b1 b0) a2 a1 a0 b1 b0 := by
+  have F := d32R_facts t q c a0 b1 b0 ret1 (val a1) hq hc ha0 hb1 hb0 hn hcase
+  unfold div32tailR
+  generalize lmul t q b0 = d at F ⊢
+  generalize sub a0 (lo d) = s0 at F ⊢
+  generalize sub_wcNC c (hi d) s0.2 = r1 at F ⊢
+  obtain ⟨hd0, hd1, hde, hs0w, hr1w, hlex, core, hq0, hq1⟩ := F
+  unfold Div32Ok
   by_cases hcond : (!ret1 && (decide (cmp (hi d) c > 0) || decide (cmp (hi d) c = 0) && decide (cmp (lo d) a0 > 0))) = true
   · rw [if_pos hcond]
     simp only [Bool.and_eq_true, Bool.not_eq_true'] at hcond
-    have hneg : ret1 = false ∧ val a0 + (Bn (m+1)) * val c < val (lo d) + (Bn (m+1)) * val (hi d) := ⟨hcond.1, hlex.mp hcond.2⟩
+    have hneg : ret1 = false ∧ val a0 + Bn k * val c < val (lo d) + Bn k * val (hi d) := ⟨hcond.1, hlex.mp hcond.2⟩
     have hq1' : 1 ≤ val q := by
       by_contra h; have := hq0 (by omega); omega
     obtain ⟨hQ1w, hQ1e⟩ := sub_1_pos q hq hq1'
@@ -193,11 +246,14 @@ theorem div_3_2_step (t m : Nat)
     obtain ⟨hx1w, hx1e⟩ := add_wc_ok r1 b1 x0.2 hr1w hb1
     generalize add_wc r1 b1 x0.2 = x1 at hx1w hx1e ⊢
     have hvx := val_lt (RU.node x0.1 x1.1) ⟨hx0w, hx1w⟩
-    simp only [val_node, Bn_succ (m+1)] at hvx
-    have Px : (val x0.1 + (Bn (m+1)) * val x1.1) + c2n x1.2 * ((Bn (m+1)) * (Bn (m+1)))
-        = (val s0.1 + (Bn (m+1)) * val r1) + (val b0 + (Bn (m+1)) * val b1) := by
-      linear_combination hx0e + (Bn (m+1)) * hx1e
+    simp only [val_node, Bn_succ k] at hvx
+    have Px : (val x0.1 + Bn k * val x1.1) + c2n x1.2 * (Bn k * Bn k)
+        = (val s0.1 + Bn k * val r1) + (val b0 + Bn k * val b1) := by
+      linear_combination hx0e + Bn k * hx1e
     obtain ⟨hρt, hρf⟩ := core.2 hneg _ x1.2 hvx Px
+    have hA' := hA
+    rw [hneg.1] at hA'
+    simp only [c2n_false, Nat.zero_mul, Nat.add_zero] at hA'
     by_cases hx12 : (!x1.2) = true
     · rw [if_pos hx12]
       simp only [Bool.not_eq_true'] at hx12
@@ -214,36 +270,40 @@ theorem div_3_2_step (t m : Nat)
       obtain ⟨hy1w, hy1e⟩ := add_wc_ok x1.1 b1 y0.2 hx1w hb1
       generalize add_wc x1.1 b1 y0.2 = y1 at hy1w hy1e ⊢
       have hvy := val_lt (RU.node y0.1 y1.1) ⟨hy0w, hy1w⟩
-      simp only [val_node, Bn_succ (m+1)] at hvy
-      have Py : (val y0.1 + (Bn (m+1)) * val y1.1) + c2n y1.2 * ((Bn (m+1)) * (Bn (m+1)))
-          = (val x0.1 + (Bn (m+1)) * val x1.1) + (val b0 + (Bn (m+1)) * val b1) := by
-        linear_combination hy0e + (Bn (m+1)) * hy1e
+      simp only [val_node, Bn_succ k] at hvy
+      have Py : (val y0.1 + Bn k * val y1.1) + c2n y1.2 * (Bn k * Bn k)
+          = (val x0.1 + Bn k * val x1.1) + (val b0 + Bn k * val b1) := by
+        linear_combination hy0e + Bn k * hy1e
       obtain ⟨F2, F3⟩ := hyy _ y1.2 hvy Py
-      refine ⟨hQ2w, hy1w, hy0w, ?_, by rw [Nat.mul_comm (val y1.1) _, Nat.mul_comm (val b1) _, Nat.add_comm (_ * val y1.1), Nat.add_comm (_ * val b1)]; exact F3⟩
-      have hA' := hA
-      rw [hneg.1] at hA'
-      simp only [c2n_false, Nat.zero_mul, Nat.add_zero] at hA'
+      refine ⟨hQ2w, hy1w, hy0w, ?_, comm_ltR F3⟩
       have hqq : val q = val Q2 + 2 := by omega
       rw [hqq] at hA' hde
-      linear_combination (Bn (m+1)) * hA' + F2.symm + hde
+      linear_combination Bn k * hA' + F2.symm + hde
     · rw [if_neg hx12]
       simp only [Bool.not_eq_true', Bool.not_eq_false] at hx12
       obtain ⟨F2, F3⟩ := hρt hx12
-      refine ⟨hQ1w, hx1w, hx0w, ?_, by rw [Nat.mul_comm (val x1.1) _, Nat.mul_comm (val b1) _, Nat.add_comm (_ * val x1.1), Nat.add_comm (_ * val b1)]; exact F3⟩
-      have hA' := hA
-      rw [hneg.1] at hA'
-      simp only [c2n_false, Nat.zero_mul, Nat.add_zero] at hA'
+      refine ⟨hQ1w, hx1w, hx0w, ?_, comm_ltR F3⟩
       have hqq : val q = val Q1 + 1 := by omega
       rw [hqq] at hA' hde
-      linear_combination (Bn (m+1)) * hA' + F2.symm + hde
+      linear_combination Bn k * hA' + F2.symm + hde
   · rw [if_neg hcond]
-    have hnn : ¬ (ret1 = false ∧ val a0 + (Bn (m+1)) * val c < val (lo d) + (Bn (m+1)) * val (hi d)) := by
+    have hnn : ¬ (ret1 = false ∧ val a0 + Bn k * val c < val (lo d) + Bn k * val (hi d)) := by
       rintro ⟨h1, h2⟩
       apply hcond
       simp only [Bool.and_eq_true, Bool.not_eq_true']
       exact ⟨h1, hlex.mpr h2⟩
     obtain ⟨F2, F3⟩ := core.1 hnn
-    refine ⟨hq, hr1w, hs0w, ?_, by rw [Nat.mul_comm (val r1) _, Nat.mul_comm (val b1) _, Nat.add_comm (_ * val r1), Nat.add_comm (_ * val b1)]; exact F3⟩
-    linear_combination (Bn (m+1)) * hA + F2.symm + hde
+    refine ⟨hq, hr1w, hs0w, ?_, comm_ltR F3⟩
+    linear_combination Bn k * hA + F2.symm + hde
+
+/-- the generic `div_3_2` template at level `m+1`, given `div_2_1` at that level -/
+theorem div_3_2_step (t m : Nat)
+    (IH21 : ∀ ah al b : RU (m+1), WF ah → WF al → WF b → Bn (m+1) ≤ 2 * val b → val ah < val b → Div21Ok (div_2_1 t ah al b) ah al b)
+    (a2 a1 a0 b1 b0 : RU (m+1)) (ha2 : WF a2) (ha1 : WF a1) (ha0 : WF a0) (hb1 : WF b1) (hb0 : WF b0)
+    (hn : Bn (m+1) ≤ 2 * val b1) (hlt : val a2 * Bn (m+1) + val a1 < val b1 * Bn (m+1) + val b0) :
+    Div32Ok (div_3_2 t a2 a1 a0 b1 b0) a2 a1 a0 b1 b0 := by
+  obtain ⟨h1, h2, h3, h4⟩ := qhatR_ok t m IH21 a2 a1 b1 b0 ha2 ha1 hb1 hb0 hn hlt
+  rw [div_3_2_succ_eq]
+  exact div32tailR_ok t _ _ a0 b1 b0 a2 a1 _ h1 h2 ha0 hb1 hb0 hn h3 h4
 
 end Givaro.Model.RecInt
